@@ -6,6 +6,8 @@ use std::collections::VecDeque;
 use std::sync::{Arc, Condvar, Mutex, MutexGuard};
 use std::sync::atomic::AtomicBool;
 use std::time::{Duration, Instant};
+use vstd::std_specs::cmp::PartialOrdSpec;
+use vstd::std_specs::ops::SubSpec;
 use std::io::Error as IoError;
 use std::io::ErrorKind as IoErrorKind;
 use std::io::Result as IoResult;
@@ -30,41 +32,7 @@ pub assume_specification<'a, T>[ Condvar::wait::<T> ](c: &Condvar, g: MutexGuard
     requires may_block(),
     ensures r is Ok, guard_of(&r->Ok_0) == guard_of(&g);   // the protected value after the wait is arbitrary: other threads ran
 
-#[verifier::external_type_specification]
-#[verifier::external_body]
-pub struct ExWaitTimeoutResult(std::sync::WaitTimeoutResult);
-#[verifier::external_type_specification]
-#[verifier::external_body]
-pub struct ExInstant(std::time::Instant);
-pub assume_specification<'a, T>[ Condvar::wait_timeout::<T> ](c: &Condvar, g: MutexGuard<'a, T>, d: Duration) -> (r: std::sync::LockResult<(std::sync::MutexGuard<'a, T>, std::sync::WaitTimeoutResult)>)
-    requires may_block(),
-    ensures r is Ok, guard_of(&(r->Ok_0).0) == guard_of(&g), wait_budget(&(r->Ok_0).1) == nanos(d);
-// ---- time (C17, ASSUMED from the std documentation): nanos(d) = length of a Duration in nanoseconds;
-// waited(w) = how long the wait that produced this WaitTimeoutResult really lasted
-pub uninterp spec fn waited(w: &std::sync::WaitTimeoutResult) -> nat;
-pub uninterp spec fn wait_budget(w: &std::sync::WaitTimeoutResult) -> nat;
-pub assume_specification[ std::sync::WaitTimeoutResult::timed_out ](w: &std::sync::WaitTimeoutResult) -> (r: bool)
-    ensures r ==> waited(w) >= wait_budget(w);       // "true if the wait was known to have timed out": the full budget has elapsed
-pub assume_specification[ Duration::from_millis ](ms: u64) -> (r: Duration)
-    ensures nanos(r) == ms * 1_000_000;
-pub assume_specification[ Duration::as_secs ](d: &Duration) -> (r: u64)
-    ensures r == nanos(*d) / 1_000_000_000;
-pub assume_specification[ Duration::subsec_nanos ](d: &Duration) -> (r: u32)
-    ensures r == nanos(*d) % 1_000_000_000;
-pub assume_specification[ Instant::now ]() -> (r: Instant);
-pub assume_specification[ Instant::elapsed ](i: &Instant) -> (r: Duration);
-
-// R18 wrappers (same body).  nanos(d) is the length of a Duration.
-pub uninterp spec fn nanos(d: Duration) -> nat;
-#[verifier::external_body]
-pub fn verif_duration_gt(a: &Duration, b: &Duration) -> (r: bool)
-    ensures r == (nanos(*a) > nanos(*b))
-{ a > b }
-#[verifier::external_body]
-pub fn verif_duration_sub(a: Duration, b: Duration) -> (r: Duration)
-    requires nanos(a) >= nanos(b)      // Duration subtraction panics on underflow
-    ensures nanos(r) == nanos(a) - nanos(b)
-{ a - b }
+//@include prelude/time.rs
 
 #[verifier::external_body]
 pub fn verif_io_error(kind: IoErrorKind, msg: &str) -> (r: IoError)
@@ -160,35 +128,37 @@ proof fn axiom_receive_step<T: Send>(q: &MessagesQueue<T>, q0: Seq<Control<T>>, 
         proof { axiom_receive_step(self, q0, gval(&queue)@, $r, true); }
 //@endfn
 
+// loops see the facts established before them (a refactoring that introduces a new local, e.g. `let start = Instant::now()`, needs no new invariant)
+#[verifier::loop_isolation(false)]
 //@fn pop_timeout ret res props C07,C17
 //@spec
     ensures received(self, res),
 //@entry
         proof { assume(may_block()); }   // recv_timeout() may block (for a bounded time)
-        // ghost clock bookkeeping (C17 timing): `slept` = sum of the measured sleep times so far
-        let ghost mut slept: nat = 0;
+        broadcast use axiom_duration_ord, axiom_duration_sub;
+        // ghost monotonic clock (R18): t0 = the time of the call
+        let tracked mut verif_clk = verif_clock_start();
+        let ghost t0 = verif_clk.t;
+        let ghost mut q0: Seq<Control<T>> = Seq::empty();
 //@loop 1
-            invariant may_block(),
-                // O-TIME-BOOK: `duration` is what is left of the timeout after the measured sleeps (saturating at 0) ...
-                nanos(duration) == (if nanos(timeout) >= slept { nanos(timeout) - slept } else { 0 }) as nat,
-                // ... so every wait begins while less than `timeout` has been slept (upper bound: the measured sleeps before
-                // the last wait add up to less than `timeout`, and the last wait is itself bounded by `timeout`:
-                // at most 2 x timeout plus scheduling latency)
-                slept == 0 || slept + 1_000_000 <= nanos(timeout),
+            invariant may_block(), verif_clk.t >= t0,
+                // O-TIME-BOOK: `duration` (what the code believes is left of the timeout) never under-estimates:
+                // remaining + really elapsed >= timeout; and it never exceeds the timeout
+                nanos(duration) + (verif_clk.t - t0) >= nanos(timeout),   // [C17,C07]
+                nanos(duration) <= nanos(timeout),   // [C17]
 //@loopentry 1
-            let ghost q0 = gval(&queue)@;
+            broadcast use axiom_duration_ord, axiom_duration_sub;
+            proof { q0 = gval(&queue)@; }
 //@atexit
                     proof { axiom_receive_step(self, q0, gval(&queue)@, $r, true); }
-//@before? 1 let now
+                    // O-TIME-LOWER (C17, C07): an empty-handed return that is not caused by an Unblock token happens only
+                    // when (all but the last millisecond of) the timeout has really elapsed since the call: a receiver
+                    // never gives up early, swallowing a wake-up that was meant for a request still queued
+                    proof { assert($r is None ==> (q0.len() > 0 && q0[0] is Unblock) || verif_clk.t - t0 + 1_000_000 > nanos(timeout)); }   // [C17,C07]
+//@before? 1 . wait_timeout (
             proof { assert(gval(&queue)@ == q0 && q0.len() == 0); }
 //@after? 1 queue = _queue
-            let ghost q0 = gval(&queue)@;   // after the wait the protected value is whatever the other threads left
-//@after? 1 let sleep_time = now.elapsed()
-            proof { slept = slept + nanos(sleep_time); }
-//@before? 3 return
-                // O-TIME-LOWER (C17): an empty-handed return that is not caused by an Unblock token happens only after a wait
-                // that ran its full budget (= timeout), or after the measured sleeps add up to more than timeout - 1 ms
-                proof { assert((waited(&result) >= nanos(timeout)) || (slept + 1_000_000 > nanos(timeout))); }   // [C17]
+            proof { q0 = gval(&queue)@; }   // after the wait the protected value is whatever the other threads left
 //@endfn
 //@endimpl
 
